@@ -116,4 +116,14 @@ int main() {}
     obs.append(Ob(id='C06.threshold-constant', prop='C06', group='C06.canscale', prelude='#include "au/units/meters.hh"', wrappers=[w], inputs=[],
                   body='\n  CHECK(%s() == 2147, "overflow-threshold-is-2147");\n' % w.name, contract='au::detail::OVERFLOW_THRESHOLD == 2147',
                   functions_under_contract=('au::detail::OVERFLOW_THRESHOLD',)))
+    # supporting static fact shared with C11: the conversion factor's numerator / denominator is evaluated in the rep through get_value<T>; a prime above 2^63 must be
+    # unrepresentable in every signed rep (it would otherwise wrap to a small negative number and every contract above would be about the wrong factor)
+    BP = ('#include "au/magnitude.hh"\n#include <cstdint>\n#define VF_STATIC_FACT(c) static_assert(c, "VF_STATIC_FACT")\n' +
+          '\n'.join('VF_STATIC_FACT(!au::representable_in<' + t + '>(au::mag<18446744073709551557ULL>()));' for t in ('int8_t', 'int16_t', 'int32_t', 'int64_t')) +
+          '\nVF_STATIC_FACT(au::representable_in<uint64_t>(au::mag<18446744073709551557ULL>()));\n'
+          'VF_STATIC_FACT(!au::representable_in<int64_t>(au::mag<18446744073709551557ULL>() * au::mag<18446744073709551533ULL>()));\n'
+          'VF_STATIC_FACT(!au::representable_in<int32_t>(au::mag<7>() / au::mag<18446744073709551557ULL>()));\nint main() {}\n')
+    obs.append(Ob(id='C06.static.prime-above-2-63-in-signed-rep', prop='C06', group='C06.static', prelude='', wrappers=[], inputs=[], body=BP, kind='S',
+                  contract='static facts: mag<2^64-59>() is not representable in any signed rep (and is in uint64_t): the factor of a conversion is never a wrapped prime',
+                  functions_under_contract=('au::representable_in / get_value (compile-time)',)))
     return obs
